@@ -437,7 +437,49 @@ def fmt(s):
     return "{" + ", ".join(f"{k}={v}" for k, v in s.items()) + "}"
 
 
+def _shared_mutable_tables(tree):
+    """constructs that give every key of a table the SAME mutable object: dict.fromkeys(keys, <mutable>), [<mutable>] * n,
+    {k: shared for k in ..} with `shared` a mutable built before the comprehension"""
+    import ast as _ast
+    mut = lambda v: isinstance(v, (_ast.Dict, _ast.List, _ast.Set, _ast.ListComp, _ast.DictComp)) or \
+        (isinstance(v, _ast.Call) and norm(v.func).split(".")[-1] in ("dict", "list", "set", "defaultdict", "zeros", "array", "DynamicNumpyArray"))
+    out = []
+    for f in _ast.walk(tree):
+        if not isinstance(f, _ast.FunctionDef):
+            continue
+        local_mut = {t.id for n in _ast.walk(f) if isinstance(n, _ast.Assign) and mut(n.value) for t in n.targets if isinstance(t, _ast.Name)}
+        for n in _ast.walk(f):
+            if isinstance(n, _ast.Call) and isinstance(n.func, _ast.Attribute) and n.func.attr == "fromkeys" and len(n.args) == 2 and \
+                    (mut(n.args[1]) or (isinstance(n.args[1], _ast.Name) and n.args[1].id in local_mut)):
+                out.append((f.name, n))
+            if isinstance(n, _ast.BinOp) and isinstance(n.op, _ast.Mult) and isinstance(n.left, _ast.List) and n.left.elts and all(mut(e) for e in n.left.elts):
+                out.append((f.name, n))
+            if isinstance(n, _ast.DictComp) and isinstance(n.value, _ast.Name) and n.value.id in local_mut:
+                out.append((f.name, n))
+    return out
+
+
+def check_tables_per_symbol(repo, rep):
+    """'a sell plus the already resting sells OF ITS KIND' is per symbol: the reservation tables must not share one object between symbols"""
+    import ast as _ast
+    rid = "C04-R10"
+    rep.rule(rid, "the per-symbol / per-asset tables of the exchange models are not built with one shared mutable value for every key "
+                  "(dict.fromkeys(keys, {}), [{}] * n, {k: shared ..}): reservations of one symbol would count against every other")
+    probe = _ast.parse("def f(keys):\n    a = dict.fromkeys(keys, {'STOP': 0})\n    b = dict.fromkeys(keys, 0)\n    c = [[]] * 3\n    d = {k: {} for k in keys}\n    return a, b, c, d\n")
+    if len(_shared_mutable_tables(probe)) != 2:
+        raise AnalysisError("C04-R10 does not decide its own probe")
+    n = 0
+    for rel in (SPOT, "jesse/models/Exchange.py", "jesse/models/FuturesExchange.py"):
+        mod = repo.module(rel)
+        for fname, node in _shared_mutable_tables(mod.tree):
+            rep.violation(rid, f"{rel}:{fname}", f"{rel}: {fname}: `{norm(node)[:90]}` gives every key the same mutable object - what one symbol reserves is seen by all")
+        n += 1
+        rep.instance(rid, rel)
+    rep.floor(rid, 3)
+
+
 def run(repo: Repo, rep, tier: str):
+    rep.guarded(check_tables_per_symbol, repo, rep)
     from vlib import memo
     rep.guarded(memo.check, repo, rep, "C04-R9", [(SPOT, "SpotExchange")], "spot ledger")
     rep.exhaustive = True
